@@ -307,6 +307,45 @@ theorem randomCropG_spec (sz : AxMap → Int) (g : Geom) (c0 c1 c2 s0 s1 s2 : In
   simp only [add_sub_cancel_left] at r0 r1 r2
   exact getitemG_three sz g _ _ _ r0 r1 r2
 
+/-- `zip` stops at the three axes: entries of the requested shape beyond the third are never looked at -/
+theorem randomCropG_ignores_extra (sz : AxMap → Int) (g : Geom) (c0 c1 c2 : Int) (rest draws : List Int) :
+    randomCropG sz g (c0 :: c1 :: c2 :: rest) draws = randomCropG sz g [c0, c1, c2] draws := by
+  simp only [randomCropG, randomCropItems, List.zip, List.zipWith]
+
+theorem optItemSlice_none (n : Int) : optItemSlice none n = .ok none := rfl
+
+theorem axisOfSlice_none (n : Int) : axisOfSlice none n = .ok ⟨0, 1, n, n, 0, 1⟩ := by
+  simp [axisOfSlice, getitemAxisNone, bind, Except.bind, pure, Except.pure]
+
+/-- a requested shape of two entries crops the first two axes and leaves the third alone (the source zips, it does not
+insist on three entries) -/
+theorem randomCropG_two (sz : AxMap → Int) (g : Geom) (c0 c1 s0 s1 : Int)
+    (h0 : 1 ≤ c0 ∧ c0 ≤ g.n0 ∧ 0 ≤ s0 ∧ s0 ≤ g.n0 - c0) (h1 : 1 ≤ c1 ∧ c1 ≤ g.n1 ∧ 0 ≤ s1 ∧ s1 ≤ g.n1 - c1) :
+    randomCropG sz g [c0, c1] [s0, s1] =
+      .ok (g.remap sz ⟨s0, 1, c0, c0, s0, 1⟩ ⟨s1, 1, c1, c1, s1, 1⟩ ⟨0, 1, g.n2, g.n2, 0, 1⟩,
+           remapSrc ⟨s0, 1, c0, c0, s0, 1⟩ ⟨s1, 1, c1, c1, s1, 1⟩ ⟨0, 1, g.n2, g.n2, 0, 1⟩) := by
+  have ax : ∀ c n s : Int, 1 ≤ c → c ≤ n → 0 ≤ s → s ≤ n - c →
+      randomCropAxis c n s = .ok (0, n - c + 1, s, s + c) ∧ ¬ (s < 0 ∨ n - c + 1 ≤ s) := by
+    intro c n s _ _ _ _
+    unfold randomCropAxis
+    have : ¬ (n - c < 0) := by omega
+    refine ⟨by simp [this], by omega⟩
+  obtain ⟨a0, b0⟩ := ax c0 g.n0 s0 h0.1 h0.2.1 h0.2.2.1 h0.2.2.2
+  obtain ⟨a1, b1⟩ := ax c1 g.n1 s1 h1.1 h1.2.1 h1.2.2.1 h1.2.2.2
+  have items : randomCropItems g [c0, c1] [s0, s1] =
+      .ok [Item.slice (some s0) (some (s0 + c0)) none, Item.slice (some s1) (some (s1 + c1)) none] := by
+    simp only [randomCropItems, List.zip, List.zipWith, randomCropGo, a0, a1, bind, Except.bind, b0, b1, if_false,
+      pure, Except.pure]
+  have r0 := range_axis_accept (n := g.n0) (f := s0) (e := s0 + c0) h0.2.2.1 (by omega) (by omega)
+  have r1 := range_axis_accept (n := g.n1) (f := s1) (e := s1 + c1) h1.2.2.1 (by omega) (by omega)
+  simp only [add_sub_cancel_left] at r0 r1
+  obtain ⟨t0, e0, f0⟩ := bind_ok.mp r0
+  obtain ⟨t1, e1, f1⟩ := bind_ok.mp r1
+  have : ¬ (0 + 1 + 1 > 3) := by decide
+  simp only [randomCropG, items, bind, Except.bind, getitemG, getitemMaps, List.length_cons, List.length_nil, this, if_false,
+    List.getElem?_cons_zero, List.getElem?_cons_succ, List.getElem?_nil, e0, e1, f0, f1, optItemSlice_none, axisOfSlice_none,
+    pure, Except.pure]
+
 /-- a requested size larger than the axis is refused before anything is drawn (ValueError) -/
 theorem randomCropAxis_refuses (c n s : Int) (h : n < c) : randomCropAxis c n s = .error .value := by
   unfold randomCropAxis
